@@ -932,6 +932,15 @@ func (q *Queue) emitDSN(meta *QueueMetadata, header textproto.Header, failedRcpt
 		if originalRcpt != "" {
 			rcpt = originalRcpt
 		}
+		// The address could be rewritten several times (nested pipelines
+		// record each step), follow the chain to what the sender used.
+		for i := 0; i < len(meta.MsgMeta.OriginalRcpts); i++ {
+			prevRcpt := meta.MsgMeta.OriginalRcpts[rcpt]
+			if prevRcpt == "" || prevRcpt == rcpt {
+				break
+			}
+			rcpt = prevRcpt
+		}
 
 		rcptInfo = append(rcptInfo, dsn.RecipientInfo{
 			FinalRecipient: rcpt,
